@@ -132,6 +132,10 @@ func chanRef[T any](c chan<- T) int { panic("ghost builtin") }
 // dynRef is the identity of the object held by an interface value (pointer payloads).
 func dynRef(x any) int { panic("ghost builtin") }
 
+// live reports whether the object x refers to exists at this point (as opposed to an identity that
+// will only be allocated later).
+func live[T any](x T) bool { panic("ghost builtin") }
+
 // nonNil reports whether a pointer, slice, or interface payload reference is non-nil.
 func nonNil[T any](x T) bool { panic("ghost builtin") }
 
@@ -864,7 +868,7 @@ func specASResp(m message.Message) *message.AssociationSetupResponse {
 //@   appends flowdesc
 //@   defines gfield("flowdesc.ipf", gentry("flowdesc", glen("flowdesc")-1)) == uint64(refOf(ipf))
 //@   ensures C08.flow.logged: glen("flowdesc") == old[int](glen("flowdesc"))+1
-//@   freshwrites net.IPNet, E:uint8
+//@   freshwrites net.IPNet, E:uint8, ipFilterRule
 //@   ensures C08.flow.result: (err == nil) <==> (ipf != nil)
 //@   ensures C08.flow.nets: err == nil ==> ipf.src.IPNet != nil && ipf.dst.IPNet != nil && len(ipf.src.IPNet.IP) >= 4 && len(ipf.dst.IPNet.IP) >= 4 && len(ipf.src.IPNet.Mask) >= 4 && len(ipf.dst.IPNet.Mask) >= 4
 //@   ensures C08.flow.ports: err == nil ==> (ipf.src.ports.low <= ipf.src.ports.high) && (ipf.dst.ports.low <= ipf.dst.ports.high)
@@ -939,3 +943,27 @@ func specPFDReq(m message.Message) *message.PFDManagementRequest {
 //@   ensures C08.pfd.nosend: glen("pfcpout") == old[int](glen("pfcpout"))
 //@   loop 1 invariant C08.pfd.l1: rangeidx+1 <= len(pfdmreq.ApplicationIDsPFDs) && pConn.appPFDs != nil && !allocated(pConn.appPFDs) && pfdInv(pConn.appPFDs)
 //@   loop 2 invariant C08.pfd.l2: rangeidx+1 <= len(pfdCtx) && pConn.appPFDs != nil && !allocated(pConn.appPFDs) && pfdInv(pConn.appPFDs) && applicationPFD.appID == id
+
+// specDirMatches: the direction keyword the agent associates with the PDR's direction.
+func specDirMatches(p *pdr, f *ipFilterRule) bool {
+	return (p.srcIface == access && f.direction == "out") || (p.srcIface == core && f.direction == "in")
+}
+
+// specVerbatim: the filter is the flow description result, source to packet source and
+// destination to packet destination.
+func specVerbatim(p *pdr, f *ipFilterRule, oldProto, oldMask uint8) bool {
+	return p.appFilter.dstIP == ip2int(f.dst.IPNet.IP) && p.appFilter.dstIPMask == ipMask2int(f.dst.IPNet.Mask) &&
+		p.appFilter.srcIP == ip2int(f.src.IPNet.IP) && p.appFilter.srcIPMask == ipMask2int(f.src.IPNet.Mask) &&
+		p.appFilter.dstPortRange == f.dst.ports && p.appFilter.srcPortRange == f.src.ports && specProtoOK(p, f, oldProto, oldMask)
+}
+
+//@ func (p *pdr) parseApplicationID(ie *ie.IE, appPFDs map[string]appPFD) (err error)
+//@   requires p != nil && ie != nil && pfdInv(appPFDs)
+//@   ensures C08.app.frame: p.srcIface == old[uint8](p.srcIface) && p.ueAddress == old[uint32](p.ueAddress)
+//@   ensures C08.app.untouched: err != nil ==> p.appFilter == old[applicationFilter](p.appFilter)
+//@   ensures C08.app.skipped: err == nil ==> (forall e int :: old[int](glen("flowdesc")) <= e && e < glen("flowdesc")-1 ==> specFlowResult(gentry("flowdesc", e)) != nil && !specDirMatches(p, specFlowResult(gentry("flowdesc", e))))
+//@   ensures C08.app.chosen: err == nil && glen("flowdesc") > old[int](glen("flowdesc")) && specFlowResult(gentry("flowdesc", glen("flowdesc")-1)) != nil && specDirMatches(p, specFlowResult(gentry("flowdesc", glen("flowdesc")-1))) ==> specVerbatim(p, specFlowResult(gentry("flowdesc", glen("flowdesc")-1)), old[uint8](p.appFilter.proto), old[uint8](p.appFilter.protoMask))
+//@   ensures C08.app.none: err == nil && (glen("flowdesc") == old[int](glen("flowdesc")) || !specDirMatches(p, specFlowResult(gentry("flowdesc", glen("flowdesc")-1)))) ==> p.appFilter == old[applicationFilter](p.appFilter)
+//@   loop 1 invariant C08.app.l.count: rangeidx+1 <= len(apfd.flowDescs) && glen("flowdesc") == old[int](glen("flowdesc"))+rangeidx+1
+//@   loop 1 invariant C08.app.l.skipped: forall e int :: old[int](glen("flowdesc")) <= e && e < glen("flowdesc") ==> specFlowResult(gentry("flowdesc", e)) != nil && live(specFlowResult(gentry("flowdesc", e))) && !specDirMatches(p, specFlowResult(gentry("flowdesc", e)))
+//@   loop 1 invariant C08.app.l.same: p.appFilter == old[applicationFilter](p.appFilter) && p.srcIface == old[uint8](p.srcIface) && p.ueAddress == old[uint32](p.ueAddress)
